@@ -42,7 +42,7 @@ REAL_VS_STUB = {
              "delayed tasks as a cross-check"],
 }
 TIERS = {
-    "quick": {"runs": 480, "budget_s": 70, "chunk": 6, "det_pairs": 32, "fresh": 4},
+    "quick": {"runs": 480, "budget_s": 60, "chunk": 6, "det_pairs": 32, "fresh": 4},
     "thorough": {"runs": 12000, "budget_s": 900, "chunk": 8, "det_pairs": 384, "fresh": 24},
 }
 
@@ -186,10 +186,15 @@ def generate(streams: Streams, tier: str, index: int) -> dict:
     grid = _gen_grid(rng)
     opts = _gen_options(rng, grid)
     n_sample = 5 if tier == "quick" else 10
+    live_field = None
     if system in ("locate", "refine"):
         frame = _gen_frame(rng, grid, 7)
         frames, times = [frame], [0]
         tasks = len(frame["droplets"])
+        if system == "locate" and rng.random() < 0.5:
+            # the field object stays alive and is updated in place (as a solver does with its
+            # state) between two parallel analyses
+            live_field = [_gen_frame(rng, grid, 5) for _ in range(rng.choice([1, 1, 2]))]
         if system == "refine":
             opts.pop("threshold", None)
             opts.pop("minimal_radius", None)
@@ -219,6 +224,8 @@ def generate(streams: Streams, tier: str, index: int) -> dict:
             opts["method"] = rng.choice(["overlap", "distance"])
     case = {"system": system, "frames": frames, "times": times, "options": opts,
             "schedules": gen_schedules(srng, tasks, n_sample, 0.35), "tasks_expected": tasks}
+    if live_field:
+        case["live_field"] = live_field
     # cross-check configuration: the same input under the REAL process pool with per-task
     # delays that let later tasks finish first (order-insensitive oracle, never a false alarm)
     if index % (60 if tier == "quick" else 12) == 7:
@@ -253,8 +260,11 @@ def _build_call(case: dict, share_inputs: bool = False):
         if share_inputs and system in ("from_storage", "tracks_from_storage") else [None]
 
     if system == "locate":
+        shared_kw = {k: copy.deepcopy(v) for k, v in opts.items()}
+
         def call(n):
-            kw = {k: copy.deepcopy(v) for k, v in opts.items()}
+            # with share_inputs the caller's option objects (nested dicts) are reused too
+            kw = shared_kw if share_inputs else {k: copy.deepcopy(v) for k, v in opts.items()}
             f0 = fields[0] if share_inputs else fields[0].copy()
             return locate_droplets(f0, refine=True, num_processes=n, **kw)
     elif system == "refine":
@@ -273,13 +283,24 @@ def _build_call(case: dict, share_inputs: bool = False):
             cands.append(d)
         r.shuffle(cands)
 
+        shared_ra = copy.deepcopy(ra)
+
         def call(n):
             f0 = fields[0] if share_inputs else fields[0].copy()
+            if share_inputs:
+                # the very same field and option dicts every time; the candidates are copied
+                # because the serial path refines diffuse candidates in place (C15 does not
+                # say whether candidates are preserved, so a mutated candidate list is not
+                # "the same input")
+                return refine_droplets(f0, [c.copy() for c in cands], num_processes=n,
+                                       **shared_ra)
             return refine_droplets(f0, [c.copy() for c in cands],
                                    num_processes=n, **copy.deepcopy(ra))
     elif system == "from_storage":
+        shared_kw = {k: copy.deepcopy(v) for k, v in opts.items()}
+
         def call(n):
-            kw = {k: copy.deepcopy(v) for k, v in opts.items()}
+            kw = shared_kw if share_inputs else {k: copy.deepcopy(v) for k, v in opts.items()}
             st = shared_storage[0] if share_inputs else MemoryStorage.from_fields(
                 list(case["times"]), [f.copy() for f in fields])
             return droplets.EmulsionTimeCourse.from_storage(st, num_processes=n,
@@ -480,6 +501,8 @@ def execute(case: dict) -> Outcome:
             violations.append(Violation(
                 "C15.O2", "repeating the parallel analysis under the same schedule gave a "
                 "different result", {"system": system, "path": "parallel"}))
+    if case.get("live_field") and case["schedules"] and not violations:
+        _live_field_stage(case, violations, cnt, log)
     if canary_fp0 is not None:
         st_c, c1 = _guarded(canary)
         cnt.inc("canary_repeats")
@@ -495,6 +518,43 @@ def execute(case: dict) -> Outcome:
                    sim_time={"pool_seconds": sim_seconds}, interleaving=key,
                    nontrivial=nontrivial, events=log.count, log_head=log.head,
                    coverage_keys=[repr(k) for k in inter_keys][:64])
+
+
+def _live_field_stage(case, violations, cnt, log):
+    """One ScalarField object analysed in parallel, overwritten in place with the next frame
+    (what a solver does with its state), and analysed in parallel again: every analysis must
+    equal the serial analysis of a fresh field holding the same data."""
+    from droplets.image_analysis import locate_droplets
+
+    opts = dict(case["options"])
+    sc = case["schedules"][0]
+    n = sc["workers"] if sc["workers"] != 1 else 2
+    frames = [case["frames"][0]] + list(case["live_field"])
+    live = scenes.render(frames[0])
+    shared_kw = {k: copy.deepcopy(v) for k, v in opts.items()}
+    for k, fr in enumerate(frames):
+        data = scenes.render(fr)
+        if k:
+            live.data[...] = data.data
+        st0, want = _guarded(lambda: locate_droplets(
+            data, refine=True, num_processes=1, **{k: copy.deepcopy(v) for k, v in opts.items()}))
+        if st0 != "ok":
+            cnt.inc("probe.serial_raised")
+            return
+        script = simexec.PoolScript(auto_workers=sc.get("auto_workers", 4), choices=sc["choices"],
+                                    crash_at=None, log=log, counters=cnt)
+        with script:
+            st, res = _guarded(lambda: locate_droplets(live, refine=True, num_processes=n,
+                                                       **shared_kw))
+        cnt.inc("live_field_calls")
+        if st != "ok" or _result_fingerprint("locate", res) != _result_fingerprint("locate", want):
+            what = getattr(res, "text", "") if st != "ok" else \
+                _diff(_result_fingerprint("locate", want), _result_fingerprint("locate", res))
+            violations.append(Violation(
+                "C15.O1", f"parallel analysis (workers={n}) of a field object that was analysed "
+                f"before and then updated in place differs from the serial analysis of the same "
+                f"data (update {k}): {what}", {"system": "locate", "kind": "live_field"}))
+            return
 
 
 def _diff(a, b) -> str:
@@ -517,6 +577,10 @@ def evidence_extra(records) -> dict:
 
 
 def shrink(case: dict):
+    if case.get("live_field"):
+        yield {k: v for k, v in case.items() if k != "live_field"}
+        if len(case["live_field"]) > 1:
+            yield {**case, "live_field": case["live_field"][:1]}
     c = case
     # one schedule at a time
     if len(c["schedules"]) > 1:
